@@ -23,6 +23,9 @@ class GenModel:
   def labels(self):
     return sorted(self.info.get('labels', []))
 
+  def to_json(self):
+    return dict(xml=self.xml, labels=self.labels())
+
 
 def num(lo, hi, digits=2):
   s = 10 ** digits
